@@ -252,8 +252,14 @@ def gen_field(F, rng, tier, exhaustive=False, budget=1.0, bn_digits=16):
         if F.wbits == 8 and op in ("fp_smb_binar", "fp_smb_divst"):
             continue
         sm = ins if (exhaustive or op in ("fp_smb", "fp_smb_jmpds", "fp_smb_binar", "fp_smb_divst")) else ins[:len(toks) + 10]
+        if not exhaustive:
+            # values next to p, p/2, p/4, p/8 (top digits all ones / long carry chains in the divstep variants)
+            kmax = 12 if quick else 300
+            near = [(p >> sh) + d for sh in range(4) for d in range(-kmax, kmax + 1)]
+            sm = sm + [hx(v) for v in near if 0 < v < p]
         for a in sm:
-            L.append(F.line(op, 0, a))
+            # fp_smb_binar meets a recorded finding (wrong sign for inputs next to p on 2^255-19, secp256k1): last
+            (tail if op == "fp_smb_binar" else L).append(F.line(op, 0, a))
     # ---------------------------------------------------------------- small-constant forms
     m = (1 << F.wbits) - 1
     digs = [0, 1, 2, 3, 5, 1 << (F.wbits - 1), m - 1, m, rng.getrandbits(F.wbits), rng.getrandbits(F.wbits // 2)]
